@@ -136,6 +136,7 @@ def rand_dists(rng, fmt, n=None, two_d=None):
         xmin = fmt.round(Fraction(rng.randint(-8, 8), rng.choice([1, 2, 4])))
         xmax = fmt.round(xmin + Fraction(rng.randint(1, 16), rng.choice([1, 2, 4, 3, 1000])))
         ymin = fmt.round(Fraction(rng.randint(-4, 4), 2)); ymax = fmt.round(ymin + Fraction(rng.randint(1, 6), 2))
+        if by == 1 and rng.random() < 0.5: ymin, ymax = Fraction(0), Fraction(1)          # what the one-dimensional shortcut constructor uses
         name = rng.choice([b'', b'x', b'  lead', b'two words ', b'#hash', b'12 34', b'E5'])
         out.append([bx, by, fmt.tok(xmin), fmt.tok(xmax), fmt.tok(ymin), fmt.tok(ymax), name])
     return out
@@ -324,6 +325,7 @@ def gen_C07(c, rng, tier):
             for d in range(dims): xs += rand_grid(rng, fmt, bins, rng.choice(['uniform', 'tiny', 'peaked', 'random']))
             us = [rand_unit(rng, fmt) if rng.random() < 0.7 else Fraction(0) for _ in range(dims)]
             c.add(t, 'icdf', [bins, dims, toks(fmt, xs), toks(fmt, us)], classes=['icdf_many_dims'])
+    gen_C07_runs(c, rng, tier)
 
 @prop('C08', 'weight vectors (normalised or not, with zeros) x adjustment data (all-zero, single non-zero, random, huge/tiny) x beta in (0,1] x minimum '
       'weight in [0,1/n); 3 types; non-trivial = a zero weight, a zero datum or an active floor', COMMON_ASSUMPTIONS +
@@ -346,6 +348,37 @@ def gen_C08(c, rng, tier):
             c.add(t, 'refine_w', [toks(fmt, ws), toks(fmt, data), fmt.rtok(minw), fmt.rtok(beta)],
                   classes=['data_' + dk, 'minw_%s' % ('zero' if minw == 0 else 'positive')] + (['has_zero_weight'] if any(w == 0 for w in ws) else []),
                   nontrivial=(dk != 'random' or minw > 0 or any(w == 0 for w in ws)))
+    gen_C08_runs(c, rng, tier)
+
+def gen_C08_runs(c, rng, tier):
+    """weights inside real multi-channel runs: asymmetric channel densities make them move; minimum weight, beta, user weights with zeros"""
+    for t in TYPES:
+        fmt = FMTS[t]
+        for _ in range(scale(tier, 8, 60)):
+            iters = rng.choice([3, 4, 6] if tier == 'quick' else [4, 8, 12])
+            s, cl, info = rand_run(rng, fmt, 'mc', iters=iters, calls=[8, 16, 30], poly=(rng.random() < 0.7), grid_map=True, finite_only=True, dists=[],
+                                   value_classes=['small_int', 'frac', 'zero', 'tiny', 'big'])
+            s = [e for e in s if e[0] != 'ops'] + [['ops', [['run', info['calls']], ['dump'], ['maxdiff']]]]
+            c.add(t, 'run', s, classes=cl + ['weights_in_real_runs'], info=info)
+
+def gen_C07_runs(c, rng, tier):
+    """grids inside real VEGAS runs: chains of refinements driven by peaked integrands, zero iterations in between"""
+    for t in TYPES:
+        fmt = FMTS[t]
+        for _ in range(scale(tier, 8, 60)):
+            iters = rng.choice([3, 5, 8] if tier == 'quick' else [6, 12, 30])
+            kindf = rng.choice(['poly', 'peak', 'zeros'])
+            vals = None
+            if kindf == 'peak': vals = ['zero', 'zero', 'zero', 'big', 'zero', 'small_int']
+            if kindf == 'zeros': vals = ['zero']
+            s, cl, info = rand_run(rng, fmt, 'vegas', iters=iters, calls=[6, 12, 24], poly=(kindf == 'poly'), finite_only=True, dists=[], value_classes=vals)
+            if kindf == 'zeros' and iters >= 3:
+                # adapt first, then an iteration whose values are all zero (the table is indexed by the call counter)
+                n0 = sum(info['calls'][:2])
+                tab = [fmt.tok(Fraction(rng.randint(1, 9), 2)) if k < n0 and rng.random() < 0.5 else fmt.tok(Fraction(0)) for k in range(sum(info['calls']))]
+                s = [e if e[0] != 'f' else ['f', ['tab', tab]] for e in s]
+            s = [e for e in s if e[0] != 'ops'] + [['ops', [['run', info['calls']], ['dump']]]]
+            c.add(t, 'run', s, classes=cl + ['grids_in_real_runs', 'integrand_' + kindf], info=info)
 
 def rand_results(rng, fmt, m, decades=6):
     rs = []
@@ -586,7 +619,7 @@ def gen_C20(c, rng, tier):
             ws = [fmt.round(w) for w in ws]
             s = spec_run('mc', fmt, dims=1, channels=n, seed=rng.getrandbits(32), chk=['weights', toks(fmt, ws), fmt.rtok(0), fmt.rtok(Fraction(1, 4))],
                          f=['tab', toks(fmt, [Fraction(1), Fraction(2), Fraction(0)])], mp=rand_map_tab(rng, fmt, n),
-                         cb=['builtin', rng.choice([2, 3]), fmt.rtok(0)], ops=[['run', [rng.choice([10, 100, 1000 if n < 8 else 50])] * 2], ['dump']])
+                         cb=['builtin', rng.choice([2, 3]), fmt.rtok(0)], ops=[['run', [rng.choice([10, 100, 1000 if n < 8 else 50])] * 2], ['dump'], ['maxdiff']])
             c.add(t, 'run', s, classes=['summary', 'pattern_' + pat, 'channels_%s' % ('1' if n == 1 else 'few' if n < 13 else 'many')], nontrivial=n >= 2)
 
 def history_ops(rng, calls, with_rollback):
